@@ -24,7 +24,7 @@ func (p *pg) genC06(profile string) (Config, Plan) {
 	}
 	kinds := []string{"append", "append", "append", "deltail", "deltail", "delhead", "delhead", "delall", "yield"}
 	mix := p.swarmMix(kinds, "append")
-	n := 6 + p.r.Intn(22)
+	n := p.ops(6 + p.r.Intn(22))
 	var plan Plan
 	// seed the log so that readers have something to read from the start
 	plan.Ops = append(plan.Ops, p.appendOp())
